@@ -594,3 +594,87 @@ def _leaves(f, start, body):
         else:
             return False
     return False
+
+
+# ------------------------------------------------------------------------------------------------ consumed bytes are counted
+def consume_accounting_sites(fb):
+    """Scanners that return a byte count (io::Result<usize> / (usize, ..)) and call consume(n) with a computed n: is every consumed
+    amount added to a counter? For each consume site: some `x = y + v` whose v has the same source as n either precedes the
+    consume in the same iteration (dominates it, no fill_buf in between) or lies on every path from the consume to the next
+    fill_buf / to an exit."""
+    out = []
+    CONS = re.compile(r"(BufRead::consume|AsyncBufReadExt::consume|BufRead>::consume)$")
+    for k, f in sorted(fb.fns.items()):
+        if not in_scope(f) or not f.blocks:
+            continue
+        if not re.search(r"Result<\(?usize", f.locals[0] or ""):
+            continue
+        sites = [(b, c) for b, c in f.calls() if CONS.search(c.get("f") or "") and len(c["args"]) == 2 and C.eval_const(f, c["args"][1]) is None]
+        if not sites:
+            continue
+        fills = {b for b, c in f.calls() if FILL_BUF.search(c.get("f") or "")}
+        exits = set(C.return_blocks(f))
+        adds = []       # (block, operand)
+        for bi, blk in enumerate(f.blocks):
+            if blk.get("cu"):
+                continue
+            for st in blk["s"]:
+                if st[0] == "=" and st[2][0] == "bin" and st[2][1] in ("Add", "AddWithOverflow"):
+                    adds.append((bi, st[2][2], st[2][3]))
+
+        def roots(op, depth=0):
+            """source locals / constants an operand is computed from (through copies and +1 style arithmetic)"""
+            k_ = C.op_const(op)
+            if k_ is not None:
+                return {("k", k_.get("v"))}
+            l = C.op_local(op)
+            if l is None:
+                pl = C.op_place(op)
+                l = pl[0] if pl else None
+            if l is None or depth > 6:
+                return set()
+            ds = [d for d in C.defs(f).get(l, []) if d[0] in ("=", "call")]
+            if len(ds) != 1 or ds[0][0] == "call":
+                return {("l", l)}
+            rv = ds[0][3]
+            if rv[0] in ("use", "cast"):
+                o = rv[1] if rv[0] == "use" else rv[2]
+                return roots(o, depth + 1) or {("l", l)}
+            if rv[0] == "bin" and rv[1] in ("Add", "AddWithOverflow", "Sub", "SubWithOverflow"):
+                return roots(rv[2], depth + 1) | roots(rv[3], depth + 1)
+            return {("l", l)}
+        for b, c in sites:
+            want = {r for r in roots(c["args"][1]) if r[0] == "l"}
+            pb = {bi for bi, a1, a2 in adds if want and (want <= (roots(a1) | roots(a2)))}
+            ok = False
+            for p in pb:
+                if C.dominates(f, p, b) and b in C.reachable(f, p, removed=fills - {p}):
+                    ok = True
+            if not ok and pb:
+                nxt = c.get("t")
+                reach = C.reachable(f, nxt, removed=pb) if nxt is not None and nxt not in pb else set()
+                ok = not (reach & (fills | exits))
+            if not ok:
+                # `let amt = src.read(buf)?; self.consume(amt); Ok(amt)`: the amount itself is what the function returns
+                for blk in f.blocks:
+                    for st in blk["s"]:
+                        if st[0] == "=" and st[1][0] == 0 and not st[1][1] and st[2][0] == "agg" and st[2][4] and want and want <= roots(st[2][4][0]):
+                            ok = True
+            out.append({"fn": k, "block": b, "ok": ok, "adds": sorted(pb)})
+    return out
+
+
+def consume_accounting_rule(ctx, rule, floor):
+    n = 0
+    for s_ in consume_accounting_sites(ctx.fb):
+        f = ctx.fb.fns[s_["fn"]]
+        n += 1
+        ctx.saw_fn(f)
+        if s_["ok"]:
+            ctx.ok(rule, "%s :: consume(n)" % s_["fn"], "the consumed amount is added to the returned count in the same iteration (or is the value returned)", f.loc(s_["block"]))
+        else:
+            ctx.violation(rule, "%s/consumed-bytes-not-counted/%s" % (rule, f.root),
+                          "%s consumes a computed number of bytes that is not added to the byte count it returns on that path: when a field / "
+                          "name continues in the next fill_buf window the count comes back too small, so offsets derived from it (index "
+                          "records, positions) depend on how the source chunks its reads" % f.root, f.loc(s_["block"]))
+    ctx.floor(rule, "consume(n) sites in byte-counting scanners", n, floor)
